@@ -17,6 +17,10 @@
     specification prescribes / the property allows; each image is materialised and loaded by a fresh
     Controller / CharacteristicCacheFile.  Recovery lives started from crash images are recorded and
     validated the same way (second round).
+(A/B) spec/persist/PersistLoad.tla: load_data over every pairing file of up to 4 (thorough: 5) entries of kinds
+    IP / legacy IP without "Connection" / BLE / CoAP, in a process with all transports / no BLE / no CoAP / only IP,
+    followed by load -> save -> restart: every entry of an available transport is loaded, wherever it sits.  Each
+    exported (file order, transports) case is built with the real save_data and restarted on the real code.
 """
 from __future__ import annotations
 
@@ -433,6 +437,49 @@ def _check_worlds(ctx, tmp, pool, worlds, flags, label):
     return results, P, C
 
 
+def _transport_dimension(ctx, tmp, pool):
+    """Mixed-transport pairing files x set of transports available in the restarted process
+    (spec/persist/PersistLoad.tla): every entry of an available transport is loaded, wherever it sits."""
+    r = ctx.tlc("persist/PersistLoad", "PersistLoad_stop.cfg", expect_violation=True, require_cover=False,
+                label="self-test of the model: a loader that stops at the first unavailable entry must violate "
+                      "AvailableAllLoaded")
+    if r.ok or r.violation["name"] != "AvailableAllLoaded":
+        raise MachineryError("PersistLoad_stop.cfg: the model does not see the loss it is built to see")
+    out = os.path.join(tmp, "load_cases.ndjson")
+    ctx.tlc("persist/PersistLoad", ctx.pick("PersistLoad_skip.cfg", "PersistLoad_skip5.cfg"), env={"CASES_OUT": out},
+            label="load_data over every file order x enabled transports, load -> save -> restart")
+    by_order = {}
+    for ln in open(out):
+        c = json.loads(ln)
+        by_order.setdefault(tuple(c["order"]), []).append(c)
+    if not by_order:
+        raise MachineryError("no transport case exported")
+    jobs = [(list(o), sorted(cs, key=lambda c: c["enabled"]), ctx.seed * 7919 + i, tmp)
+            for i, (o, cs) in enumerate(sorted(by_order.items()))]
+    problems = {}
+    n = 0
+    for job, res in zip(jobs, pool.map(D.transport_cases, jobs, chunksize=8)):
+        for c in job[1]:
+            ctx.case(("transports", tuple(job[0]), tuple(c["enabled"])) if job[0] else None)
+        n += len(job[1])
+        bad = {tuple(en) for en, _, _, _ in res}
+        ctx.trace_ok(len(job[1]) - len(bad))
+        for en, phase, what, original in res:
+            problems.setdefault(phase, []).append((len(job[0]), job[0], en, what, original, job[1]))
+    ctx.notes["transport_cases"] = n
+    for phase, lst in sorted(problems.items()):
+        lst.sort(key=lambda x: (x[0], x[1], x[2]))
+        _, order, en, what, original, cases = lst[0]
+        must = next((c["must"] for c in cases if c["enabled"] == en), None)
+        ctx.violation(f"AvailableAllLoaded ({phase}): pairing file with entries {order} (file order), process with transports "
+                      f"{en}: {what}; the specification requires entries {must} to be loaded with all their fields.  "
+                      f"{len(lst)} of {n} (file order, transports) cases fail in this phase.",
+                      {"kind": "transports", "order": order, "enabled": en, "must": must, "phase": phase,
+                       "pairing_file_bytes": original})
+    if jobs:
+        ctx.sample({"transport_case": jobs[len(jobs) // 2][1][0]})
+
+
 def run(ctx):
     ctx.rule = ("a case = one disk image (file -> stream, prefix length) enumerated by TLC from a recorded save of the real "
                 "code, or one damaged cache file, restarted with a fresh Controller/CharacteristicCacheFile; distinct by "
@@ -446,7 +493,9 @@ def run(ctx):
                "readable characteristics hold a non-null value when the database is written (null is replaced by the "
                "format default when a database is parsed)",
                "which value a complete byte stream carries is decided with the standard library's json module",
-               "a first-ever save that is interrupted has no previous data to preserve: no outcome is prescribed for it")
+               "a first-ever save that is interrupted has no previous data to preserve: no outcome is prescribed for it",
+               "what happens on a later save to entries whose transport is unavailable in the process is not claimed "
+               "(the tree drops them); IP is available in every process")
     fixtures = sorted(f for f in os.listdir(_fixtures_dir()) if f.endswith(".json"))
     tmp = tempfile.mkdtemp(prefix="c20_")
     pool = mp.get_context("fork").Pool(min(16, os.cpu_count() or 4))
@@ -467,11 +516,14 @@ def run(ctx):
                         label="self-test of the model: unsafe save procedure must violate CrashSafePairings")
             if r.ok or r.violation["name"] != "CrashSafePairings":
                 raise MachineryError(f"{cfg}: the model does not see the loss it is built to see")
+        _transport_dimension(ctx, tmp, pool)
         # ---------------- worlds on the real code
+        D.EVERY_BYTE_LIMIT = ctx.pick(2048, 4096)
+        D.CLASS_SAMPLES = ctx.pick((5, 4), (16, 12))
         rng = ctx.rng
-        nworlds = ctx.pick(30, 200)
-        n_every_p = ctx.pick(4, 20)          # worlds whose pairing-file saves are cut at every byte
-        n_every_c = ctx.pick(2, 10)          # ... whose cache saves are cut / damaged at every byte
+        nworlds = ctx.pick(26, 200)
+        n_every_p = ctx.pick(3, 20)          # worlds whose pairing-file saves are cut at every byte
+        n_every_c = ctx.pick(1, 10)          # ... whose cache saves are cut / damaged at every byte
         special = _special_worlds(rng, fixtures, ctx.thorough)
         worlds = special + [_gen_world(rng, i, fixtures) for i in range(nworlds)]
         ns = len(special)
@@ -545,6 +597,9 @@ def _replay(ctx, tmp, pool):
     """Re-run the scenario of a recorded violation on the tree under test (every byte, both files)."""
     data = json.load(open(ctx.replay))
     obj = data["replay"]
+    if obj.get("kind") == "transports":
+        print(f"replaying: {data['what'][:300]}")
+        return _transport_dimension(ctx, tmp, pool)
     scen = obj.get("scenario")
     if not scen:
         raise MachineryError("replay file without a scenario (a violation of the design-level model? re-run ./check C20)")
